@@ -395,7 +395,9 @@ func runC23(c *Ctx) {
 			}
 			c.check(len(c.calls(fn, byCallee("rlpWriter).writeNull"))) == 1, "C23.null", "writeBytes keeps nil and empty distinct", fn.Pos(), "nil → null sequence", "writeBytes has no nil case")
 		}
-		isNilErr := func(v ssa.Value) bool { return strings.Contains(render(v), "global:ErrNilValue") || strings.Contains(render(v), "ErrNilValue") }
+		isNilErr := func(v ssa.Value) bool {
+			return strings.Contains(render(v), "global:ErrNilValue") || strings.Contains(render(v), "ErrNilValue")
+		}
 		for _, name := range []string{"readList", "readBytes"} {
 			fn := c.fn(pk, "rlpReader", name)
 			if fn == nil {
